@@ -58,6 +58,22 @@ CHECKS = {
    note="Finite space explored exhaustively within the bound by forking (solver decides feasibility). Outside: construction of the graph from syntax (file/declaration order), the variant merge loop of linter.lint (planned), graphs > 4 objects.",
    technique="bounded symbolic execution of go/ssa + SMT feasibility, native replay of models",
    design="3/C17"),
+ "C10": dict(
+   level="model_checking",
+   text="Kernel: the real filterIgnored / couldHaveMatched / parseDirectives / lineIgnore.match / fileIgnore.match (with strings.ToLower and filepath.Match interpreted) are executed on every combination of "
+        "1 problem x 1 directive (45 check lists incl. globs, wrong case, U1000, disabled and unknown checks; 3 reason shapes; enabled/disabled analyzers) and 2 problems x 1-2 directives in both orders; "
+        "asserted against the property's predicate: suppressed set, pass-through of everything else in order, malformed-directive errors, useless-directive reports, directive diagnostics never suppressed.",
+   note="Finite vocabulary explored exhaustively by forking (solver decides feasibility). Outside: attachment of comments to nodes, U1000's in-graph ignores, whitespace-only reasons, globs in the useless-directive clause. "
+        "One known finding (order-dependence of couldHaveMatched around U1000) is listed in known_findings.txt.",
+   technique="bounded symbolic execution of go/ssa + SMT feasibility, native replay of models",
+   design="3/C10"),
+ "C11": dict(
+   level="model_checking",
+   text="Kernel: the real filterAnalyzerNames (lists of 1-2, thorough 3, tokens from 21), config.mergeConfigs / Config.Merge / mergeLists / normalizeList (default + 2-3 staticcheck.conf levels + -checks, with inherit) and "
+        "Command.printDiagnostics with list.Set and the text formatter (2 problems x -fail lists x text|null|sarif) are executed symbolically and compared with an independent left-to-right evaluator of the documented algebra and exit rule.",
+   note="Finite vocabulary explored exhaustively by forking. Outside: directory walk and TOML decoding (parseConfigs), rendering of stylish/JSON/SARIF (sarifFormatter.Format has an empty body in the symbolic run), -show-ignored.",
+   technique="bounded symbolic execution of go/ssa + SMT feasibility, native replay of models",
+   design="3/C11"),
 }
 
 NA = {
